@@ -107,6 +107,40 @@ func ReactScenarios() []History {
 	)
 	add("modules-without-their-callbacks", smallParams(), nil, ops...)
 
+	// transactions of several messages: all of them take effect or none.  A definition and a binding made by
+	// the first messages of a transaction whose last message fails are gone (and can be made again); two calls
+	// in one transaction share its hash and are told apart by the message index
+	ops = registry(map[string]int64{"p1": 5, "p2": 3})
+	ops = append(ops,
+		Ev{Name: "TxBegin"},
+		Ev{Name: "Define", Signer: "o2", Svc: "s2"},
+		Ev{Name: "Bind", Signer: "o2", Svc: "s2", Prov: "p3", Deposit: 40, DShape: "ok", Pr: pr(4), Qos: 1},
+		Ev{Name: "Call", Signer: "c1", Svc: "s2", Provs: []string{"p3"}, Cap: 10, Timeout: 2},
+		Ev{Name: "Bind", Signer: "o2", Svc: "s2", Prov: "pz", Deposit: 3, DShape: "ok", Pr: pr(4), Qos: 1}, // too little: the transaction fails
+		Ev{Name: "TxEnd"},
+		Ev{Name: "Bind", Signer: "o1", Svc: "s2", Prov: "p1", Deposit: 40, DShape: "ok", Pr: pr(4), Qos: 1}, // s2 is not defined
+		Ev{Name: "Call", Signer: "c1", Svc: "s2", Provs: []string{"p3"}, Cap: 10, Timeout: 2},
+		Ev{Name: "Obs"},
+		Ev{Name: "TxBegin"},
+		Ev{Name: "Define", Signer: "o1", Svc: "s2"}, // by another author this time
+		Ev{Name: "Bind", Signer: "o1", Svc: "s2", Prov: "p3", Deposit: 40, DShape: "ok", Pr: pr(2), Qos: 1},
+		Ev{Name: "Call", Signer: "c1", Svc: "s2", Provs: []string{"p3"}, Cap: 10, Timeout: 2},
+		Ev{Name: "Call", Signer: "c2", Svc: "s1", Provs: both, Cap: 10, Timeout: 2, Rep: true, Freq: 2, Total: 2},
+		Ev{Name: "TxEnd"},
+		eb(1),
+		Ev{Name: "TxBegin"},
+		Ev{Name: "Respond", Signer: "p3", Rid: rid(1, 1, 1, 0), Kind: "valid"},
+		Ev{Name: "Withdraw", Signer: "o1", Prov: "p3"},
+		Ev{Name: "SetWithdrawAddr", Signer: "o1", Addr: "w1"},
+		Ev{Name: "Respond", Signer: "p3", Rid: rid(1, 1, 1, 0), Kind: "valid"}, // answered already: everything is undone
+		Ev{Name: "TxEnd"},
+		Ev{Name: "Obs"},
+		Ev{Name: "Respond", Signer: "p3", Rid: rid(1, 1, 1, 0), Kind: "valid"},
+		eb(1), eb(1), eb(1),
+		Ev{Name: "Withdraw", Signer: "o1"},
+	)
+	add("transactions-of-several-messages", smallParams(), nil, ops...)
+
 	return hs
 }
 
